@@ -162,6 +162,16 @@ def check_one(spec, fn, env, abs_args, harness):
     return Failure(spec, abs_args, f'raises-when[{due_w[0]}]', f'returned {outcome[1]!r} instead of raising'[:300])
   if due:
     return Failure(spec, abs_args, f'raises-if[{due[0]}]', f'returned {outcome[1]!r} instead of raising'[:300])
+  # frame: an object parameter of a function that declares no modifies must be left untouched
+  if not spec.modifies and not getattr(spec, 'frame_except', None):
+    for p, s_ in params:
+      if hasattr(s_, 'fields') and not isinstance(s_, Union) and p not in spec.assigns:
+        try:
+          after = s_.abstract(conc[p])
+        except Exception as e:  # noqa
+          return Failure(spec, abs_args, f'frame[{s_.name}]', f'the object passed as `{p}` is no longer a valid {s_.name} after the call: {e!r}'[:300])
+        if after != abs_args[p]:
+          return Failure(spec, abs_args, f'frame[{s_.name}]', f'the call modified its argument `{p}`: before {abs_args[p]!r}, after {after!r}'[:300])
   post = dict(abs_args)
   try:
     for p in spec.assigns:
